@@ -95,6 +95,18 @@ def _ctor_cases(rng, quick):
                 A = np.tril(a) if lower else np.triu(a)
                 out.append((f"TriangularAffine(dim={d},lower={lower})", lambda a=a, loc=loc, lower=lower: B.TriangularAffine(loc if np.ndim(loc) == 0 else jnp.asarray(loc), jnp.asarray(a), lower=lower),
                             lambda x, A=A, loc=loc: A @ x + loc, (d,), None, dict(arr=a.tolist(), loc=np.asarray(loc).tolist(), lower=lower)))
+        # "the other triangle is ignored": whatever it holds - huge values, inf, nan (a matrix filled triangle by triangle from an
+        # np.full(nan) / np.empty placeholder) - the map is triangle(arr) @ x + loc  (seeded change C07f selected by multiplying with a mask)
+        for d in (2, 3):
+            for lower in (True, False):
+                for junk in (np.nan, np.inf, -np.inf, 1e300):
+                    a = rng.normal(0, 1.5, (d, d))
+                    a[np.diag_indices(d)] = np.exp(rng.normal(0, 1, d))
+                    A = np.tril(a) if lower else np.triu(a)
+                    dirty = np.where((np.tril(np.ones((d, d)), -1).T if lower else np.tril(np.ones((d, d)), -1)) > 0, junk, a)
+                    loc = rng.normal(0, 1, d)
+                    out.append((f"TriangularAffine(dim={d},lower={lower},ignored triangle={junk})", lambda dirty=dirty, loc=loc, lower=lower: B.TriangularAffine(jnp.asarray(loc), jnp.asarray(dirty), lower=lower),
+                                lambda x, A=A, loc=loc: A @ x + loc, (d,), None, dict(arr=[[repr(float(v)) for v in row] for row in dirty], loc=loc.tolist(), lower=lower)))
         for shape in ((), (4,), (2, 3)):
             out.append((f"Exp{shape}", lambda shape=shape: B.Exp(shape), np.exp, shape, None, {}))
             out.append((f"SoftPlus{shape}", lambda shape=shape: B.SoftPlus(shape), ref_softplus, shape, None, {}))
